@@ -142,8 +142,11 @@ def make_case(rng, method=None):
     n_cond = int(rng.integers(2, 7))
     n_ch = int(rng.integers(2, 9)) if method != 'correlation' else int(rng.integers(3, 9))
     cvm = method in ('crossnobis', 'poisson_cv')
+    # a fold descriptor is honoured by all six methods (pairs sharing a fold value are excluded), not only by the two
+    # whose names say so: a quarter of the other methods' cases carry one
+    with_fold = cvm or bool(rng.integers(4) == 0)
     design = gen.pick(rng, ['single', 'balanced', 'unbalanced'])
-    if cvm:
+    if with_fold:
         n_fold = int(rng.integers(2, 5))
         reps = 1 if design == 'single' else int(rng.integers(1, 3))
         cond, fold = [], []
@@ -366,6 +369,8 @@ def run_case(ctx, case, build):
         # only for one observation per condition and fold ('single'); crossnobis is bilinear: any fold-balanced design
         applies = (case['design'] == 'single') or (m in ('euclidean', 'mahalanobis')) or \
                   (m == 'crossnobis' and case['design'] == 'balanced')
+        if case['fold'] is not None and m not in ('crossnobis', 'poisson_cv'):
+            applies = False     # calc_rdm has no fold-excluding variant of these four methods to coincide with
         if applies:
             kw = dict(method=m, descriptor='cond')
             if case['prec'] is not None and m in ('mahalanobis', 'crossnobis'):
